@@ -41,21 +41,58 @@ def hook_present(repo):
 FAILED_RE = re.compile(r'Failed Checks: (.*?)\n\s*File: "([^"]*)", line (\d+), in (\S+)', re.S)
 
 
-def qualified(harness):
+NSLOTS = 16
+
+
+def acquire_slot():
+    """A Kani target directory must never be used by two cargo invocations on different source trees at
+    the same time (the goto binaries have the same file names and would overwrite each other), so every
+    slot is protected by an flock that is held for the whole `cargo kani` run -- also across processes."""
+    import fcntl
+    base = os.path.join(WORK, 'ktarget')
+    os.makedirs(base, exist_ok=True)
+    while True:
+        for i in range(NSLOTS):
+            f = open(os.path.join(base, 'slot%d.lock' % i), 'w')
+            try:
+                fcntl.flock(f, fcntl.LOCK_EX | fcntl.LOCK_NB)
+                return i, f
+            except OSError:
+                f.close()
+        time.sleep(1.0)
+
+
+def release_slot(f):
+    import fcntl
+    try:
+        fcntl.flock(f, fcntl.LOCK_UN)
+    finally:
+        f.close()
+
+
+def group_of(harness):
     import klist
     for f, h in klist.all_harnesses():
         if h == harness:
-            return 'verif_hooks::harness::%s::%s' % (f, h)
-    return harness
+            return f
+    return None
+
+
+def qualified(harness):
+    g = group_of(harness)
+    return 'verif_hooks::harness::%s::%s' % (g, harness) if g else harness
 
 
 def run_one(scratch, harness, slot, timeout, extra_args=()):
-    tdir = os.path.join(WORK, 'ktarget', 'slot%d' % slot)
+    group = group_of(harness) or 'none'
+    tdir = os.path.join(WORK, 'ktarget', 'slot%d' % slot, group)
     os.makedirs(tdir, exist_ok=True)
     cmd = ['cargo', 'kani', '-Z', 'function-contracts', '--harness', qualified(harness), '--exact', '--output-format', 'terse',
            '--target-dir', tdir] + list(extra_args)
     env = dict(os.environ)
     env['CARGO_NET_OFFLINE'] = 'true'
+    # only the harness file this harness lives in is compiled (cfg verif_g_<file>)
+    env['RUSTFLAGS'] = (env.get('RUSTFLAGS', '') + ' --cfg verif_g_%s' % group).strip()
     t0 = time.time()
     import signal
     proc = subprocess.Popen(cmd, cwd=scratch, env=env, stdout=subprocess.PIPE, stderr=subprocess.STDOUT,
@@ -131,24 +168,14 @@ def run_harnesses(repo, harnesses, jobs=8, timeout=900, extra_args=()):
     meta['scratch'] = scratch
     results = []
     try:
-        # warm one slot first so that the dependency build is not repeated concurrently from cold
-        slots = list(range(jobs))
         with concurrent.futures.ThreadPoolExecutor(max_workers=jobs) as ex:
-            free = list(slots)
-            futs = {}
-            pending = list(harnesses)
-            import threading
-            lock = threading.Lock()
-
             def work(h):
-                with lock:
-                    s = free.pop()
+                slot, lock = acquire_slot()
                 try:
-                    return run_one(scratch, h, s, timeout, extra_args)
+                    return run_one(scratch, h, slot, timeout, extra_args)
                 finally:
-                    with lock:
-                        free.append(s)
-            for r in ex.map(work, pending):
+                    release_slot(lock)
+            for r in ex.map(work, list(harnesses)):
                 results.append(r)
     finally:
         shutil.rmtree(scratch, ignore_errors=True)
